@@ -25,6 +25,7 @@ ENGINE = {
  "C04": "result class (ok / which panic) of every op in debug and release builds over four history streams including handle drops in any order; oracle: no panic at all on well-formed histories",
  "C05": "per-stabilise invocations and stats, plus the oracle: every computed node lies in the dependency cone of an observer live for that call (cone at start or at end)",
  "C07": "every read result between actions and from inside closures, plus the oracle: reads do not move between stabilises, new observers are NeverStabilised, values are the snapshot values",
+ "C08": "returns of get/replace/replace_with, the values every reader function saw, effect logs of closures and handlers, is_stable, plus a python write-machine oracle (immediate outside stabilise, deferred and composed inside node functions, applied at the end, immediate in handlers)",
  "C09": "per-subscription callback sequences, plus the oracle: Initialised once, Changed exactly on a changed value, nothing after unsubscribe/disallow/drop",
  "C10": "results of read/subscribe/unsubscribe/state-unsubscribe over lifecycle-heavy histories, plus the lifecycle automaton as oracle",
  "C13": "fault enumeration: a panic injected at every individual user-function invocation (node, fold, bind, cutoff functions and update handlers) of every stabilise of every generated history, followed by reads, a second stabilise and dropping everything; whole traces compared, plus the oracle (reads refused or fully propagated, second stabilise refuses, drops do not panic or abort)",
